@@ -142,6 +142,36 @@ func (g *gen) representativeOps(dense bool) []string {
 
 func (g *gen) genScale() {
 	fills := []string{"-", "RGBA:ff,00,00,ff", "Gray:80", "Gray16:1234", "NRGBA:10,20,30,40", "CMYK:01,02,03,04"}
+	// every integer factor 1..260 (thorough 1..700) on the narrowest sources: a 3-module and a 7-module caller-made 1D
+	// code of height 1 (exact multiple, and with a remainder of one / of factor-1 pixels), and the smallest 2D symbols at
+	// a sample of large factors. Windows around a source never exceed factor 4; a per-pixel mapping that goes through
+	// floating point is wrong only from factor 49 on (seed x04).
+	tiny := []string{"raw1d " + hx("k") + " " + hx("c") + " 101 -", "raw1d " + hx("k") + " " + hx("c") + " 1101001 7"}
+	for ti, src := range tiny {
+		w0 := []int{3, 7}[ti]
+		top := g.n(260, 700)
+		for f := 1; f <= top; f++ {
+			fl := fills[(f+ti)%len(fills)]
+			g.emit("scale %d %d %s %s", w0*f, 1+f%3, fl, src)
+			if f%2 == ti {
+				g.emit("scale %d %d %s %s", w0*f+1, 1, fl, src)
+				g.emit("scale %d %d %s %s", w0*f+f-1, 2, fl, src)
+			}
+		}
+	}
+	for _, src := range []string{"dm " + hx("A"), "aztec " + hx("A") + " 33 0", "qr " + hx("A") + " 0 0"} {
+		w0, h0, ok := sizeOf(src)
+		if !ok {
+			continue
+		}
+		for i := 0; i < g.n(3, 12); i++ {
+			f := 40 + g.intn(90)
+			if i == 0 {
+				f = 49 + g.intn(60)
+			}
+			g.emit("scale %d %d %s %s", w0*f+g.intn(f), h0*f+g.intn(2*f), fills[g.intn(len(fills))], src)
+		}
+	}
 	small := []string{
 		"ean " + hx("12345670"),
 		"tof " + hx("12") + " 1",
@@ -395,6 +425,7 @@ func (g *gen) genSmallest() {
 		mode := []int{1, 2, 3}[g.intn(3)]
 		g.emit("qr %s %d 0", hx(g.qrContent(mode, g.intn(120))), g.intn(4))
 	}
+	g.qrCrossModePairs()
 	// DataMatrix: every size boundary in every content class
 	for _, c := range dmCaps {
 		for kind := 0; kind < 5; kind++ {
@@ -726,4 +757,34 @@ func (g *gen) historyPairs() []string {
 	quad("tof "+hx("12")+" 1", "tof "+hx("3456")+" 1", "tof "+hx("123")+" 1", "tof "+hx("12a4")+" 1", "tof - 0")
 	quad("codabar "+hx("A1B"), "codabar "+hx("C23-4D"), "codabar "+hx("12"), "codabar "+hx("A1"), "codabar -")
 	return out
+}
+
+
+// qrCrossModePairs: consecutive calls (the ops of a check run in order within one process) at the same level whose
+// contents sit on the two sides of one version boundary in two *different* modes: the first no longer fits version v in
+// mode m1, the second exactly fills version v in mode m2. The modes' character-count fields differ in width, so the two
+// bit counts are within a few bits of each other — any shortcut that carries a size decision from one call to the next
+// (seed x02: a resume hint in findSmallestVersionInfo) is wrong exactly here. Each op is also checked on its own.
+func (g *gen) qrCrossModePairs() {
+	put := func(format string, a ...interface{}) { fmt.Fprintf(g.w, format+"\n", a...) } // no de-duplication: order matters
+	for lvl := 0; lvl < 4; lvl++ {
+		for v := 1; v < 40; v++ {
+			if !g.thorough() && (v*7+lvl)%5 != 0 && v > 3 {
+				continue
+			}
+			for _, m1 := range []int{1, 2, 3} {
+				for _, m2 := range []int{1, 2, 3} {
+					if m1 == m2 {
+						continue
+					}
+					e1, e2 := m1, m2
+					if g.intn(3) == 0 {
+						e2 = 0 // Auto on content of class m2
+					}
+					put("qr %s %d %d", hx(g.qrContent(m1, qrCapacity(v, lvl, m1)+1)), lvl, e1)
+					put("qr %s %d %d", hx(g.qrContent(m2, qrCapacity(v, lvl, m2))), lvl, e2)
+				}
+			}
+		}
+	}
 }
